@@ -83,7 +83,7 @@ func ShieldProfile(seed int64, out *Recorder, nOps int) *Chain {
 	t0 := time.Unix(1600000000, 0).UTC()
 	cfg := GenCfg{Seed: seed, H0: 10, T0: t0, NAcc: 10, NVal: nVal, NCert: 1, AdminIdx: 9,
 		Balance: 1000000000000, ValStake: stakes, Patch: shieldPatch(sc, 2*unit, t0), Votes: true,
-		MinSelf: [][]int64{{1}, {900000000, 1, 1}, {1, 400000000, 1}}[rng.Intn(3)]}
+		MinSelf: [][]int64{{1}, {stakes[0] - 5000000, 1, 1}, {1, stakes[1] - 20000000, 1}}[rng.Intn(3)]}
 	c := NewChain(cfg, out)
 	c.Rng = rng
 	out.Genesis(c, D{"profile": "shield", "unit": unit.Nanoseconds()})
@@ -108,6 +108,16 @@ func ShieldProfile(seed int64, out *Recorder, nOps int) *Chain {
 				c.Do(i, []D{{"t": "staking.delegate", "del": Hex(c.Accts[i].Addr), "val": Hex(c.Accts[v].Addr), "amt": amt}},
 					stakingtypes.NewMsgDelegate(c.Accts[i].Addr, sdk.ValAddress(c.Accts[v].Addr), sdk.NewInt64Coin(Bond, amt)))
 			}
+		}
+	}
+	scenario := rng.Intn(9) // 0,1,2: a scripted opening (below); otherwise none
+	if scenario < 3 {
+		for i := 0; i < cfg.NAcc; i++ { // every account a certified identity: the stake round of the scripted claim must reach quorum
+			msg := certtypes.NewMsgIssueCertificate(certtypes.AssembleContent("identity", c.Accts[i].Addr.String()), "", "", "id", c.Accts[certifier].Addr)
+			c.Do(certifier, []D{{"t": "cert.issue", "kind": "identity", "content": Hex(c.Accts[i].Addr), "certifier": Hex(c.Accts[certifier].Addr)}}, msg)
+		}
+		if !shieldScenario(c, rng, scenario, sc, cfg, admin, certifier, unit) {
+			return c
 		}
 	}
 	providers := []int{0, 1, cfg.NVal, cfg.NVal + 1, cfg.NVal + 2}
@@ -411,4 +421,130 @@ func ShieldProfile(seed int64, out *Recorder, nOps int) *Chain {
 		c.End()
 	}
 	return c
+}
+
+// shieldScenario plays a scripted opening that puts the module into a situation the random generator reaches rarely; amounts
+// are drawn around the boundaries that matter.  The history continues with random operations afterwards.
+//   0: a claim for the whole shield is paid by a provider most of whose collateral sits in one queued withdrawal
+//      (the payout must shrink that entry by exactly what it takes)
+//   1: an old large withdrawal about to mature and a fresh small one; then a claim whose lock must postpone the old one only
+//   2: a provider undelegates most of its stake while somebody else redelegates in the same block; a claim then has to
+//      postpone the provider's unbonding entry (and nothing else in the staking queues)
+func shieldScenario(c *Chain, rng interface{ Intn(int) int }, kind int, sc ShieldCfg, cfg GenCfg, admin, certifier int, unit time.Duration) bool {
+	sk := c.App.VerifShieldKeeper()
+	coin := func(a int64) sdk.Coins { return c.Coins(a, Bond) }
+	prov, buyer := 0, 5
+	pa := c.Accts[prov].Addr
+	stake := cfg.ValStake[0]
+	jitter := func(x int64) int64 { return x + int64(rng.Intn(3)) - 1 }
+	collateral := []int64{400000000, stake * 9 / 10, 250000000}[rng.Intn(3)]
+	c.Do(prov, []D{{"t": "shield.deposit", "from": Hex(pa), "amt": collateral}}, shieldtypes.NewMsgDepositCollateral(pa, coin(collateral)))
+	c.Do(admin, []D{{"t": "shield.createPool", "from": Hex(c.Accts[admin].Addr), "shield": 1, "fees": 1000, "sponsor": "scn", "sponsorAddr": Hex(c.Accts[8].Addr), "limit": 50000000000}},
+		shieldtypes.NewMsgCreatePool(c.Accts[admin].Addr, coin(1), shieldtypes.MixedCoins{Native: coin(1000)}, "scn", c.Accts[8].Addr, "d", sdk.NewInt(50000000000)))
+	pools := sk.GetAllPools(c.Ctx())
+	if len(pools) == 0 {
+		return true
+	}
+	poolID := pools[len(pools)-1].Id
+	// the largest purchase the pool fraction allows
+	free := sk.GetTotalCollateral(c.Ctx()).Int64() - sk.GetTotalWithdrawing(c.Ctx()).Int64() - sk.GetTotalClaimed(c.Ctx()).Int64()
+	maxS := sc.PoolLimit.MulInt64(free).TruncateInt64() - 1
+	if maxS > free-1 {
+		maxS = free - 1
+	}
+	shield := maxS
+	if kind == 1 {
+		shield = maxS / 2
+	}
+	if shield < sc.MinPurchase {
+		return true
+	}
+	c.Do(buyer, []D{{"t": "shield.purchase", "from": Hex(c.Accts[buyer].Addr), "pool": poolID, "amt": shield}},
+		shieldtypes.NewMsgPurchaseShield(poolID, coin(shield), "asset", c.Accts[buyer].Addr))
+	lists := sk.GetAllPurchaseLists(c.Ctx())
+	var purchaseID uint64
+	for _, l := range lists {
+		if l.PoolId == poolID && l.Purchaser == c.Accts[buyer].Addr.String() && len(l.Entries) > 0 {
+			purchaseID = l.Entries[len(l.Entries)-1].PurchaseId
+		}
+	}
+	if purchaseID == 0 {
+		return true
+	}
+	withdraw := func(a int64) {
+		if a > 0 {
+			c.Do(prov, []D{{"t": "shield.withdraw", "from": Hex(pa), "amt": a}}, shieldtypes.NewMsgWithdrawCollateral(pa, coin(a)))
+		}
+	}
+	loss := shield
+	switch kind {
+	case 0:
+		// leave less free collateral than the provider's share of the shield: the payout reaches into the queued withdrawal
+		w := jitter(collateral - shield/2)
+		if rng.Intn(2) == 0 { // two entries: the boundary of the covered shield falls inside the older one
+			withdraw(w - shield/4)
+			withdraw(shield / 4)
+		} else {
+			withdraw(w)
+		}
+		loss = []int64{shield, shield - 1, shield / 2, jitter(shield / 2)}[rng.Intn(4)]
+	case 1:
+		withdraw(jitter(collateral - shield/2)) // old and large
+		if !c.Advance(sc.Withdraw - unit - time.Duration(rng.Intn(3))*time.Second) {
+			return false
+		}
+		withdraw([]int64{10000000, 1, shield / 4}[rng.Intn(3)]) // fresh: matures after the lock of the coming claim ends
+		loss = []int64{shield, jitter(shield/2 + 1), shield - 1}[rng.Intn(3)]
+	case 2:
+		other := cfg.NVal // an account with delegations of its own (see the opening of the profile)
+		val0 := sdk.ValAddress(c.Accts[0].Addr)
+		dst := sdk.ValAddress(c.Accts[1%cfg.NVal].Addr)
+		und := jitter(stake - collateral + shield/2 + collateral/2)
+		if und >= stake {
+			und = stake - 1000000
+		}
+		c.Do(prov, []D{{"t": "staking.undelegate", "del": Hex(pa), "val": Hex(c.Accts[0].Addr), "amt": und}},
+			stakingtypes.NewMsgUndelegate(pa, val0, sdk.NewInt64Coin(Bond, und)))
+		if del, ok := c.App.VerifStakingKeeper().GetDelegation(c.Ctx(), c.Accts[other].Addr, val0); ok && cfg.NVal > 1 {
+			amt := del.Shares.TruncateInt64() / 2
+			if amt > 0 {
+				c.Do(other, []D{{"t": "staking.redelegate", "del": Hex(c.Accts[other].Addr), "src": Hex(c.Accts[0].Addr), "dst": Hex(c.Accts[1%cfg.NVal].Addr), "amt": amt}},
+					stakingtypes.NewMsgBeginRedelegate(c.Accts[other].Addr, val0, dst, sdk.NewInt64Coin(Bond, amt)))
+			}
+		}
+		if sc.Unbonding-unit > sc.Protection {
+			return true
+		}
+		if !c.Advance(sc.Unbonding - unit) {
+			return false
+		}
+		loss = []int64{shield, shield - 1, jitter(shield * 9 / 10)}[rng.Intn(3)]
+	}
+	if loss <= 0 {
+		return true
+	}
+	need := sc.DepositRate.MulInt64(loss).TruncateInt64() + 1
+	if need < sc.MinClaimDeposit {
+		need = sc.MinClaimDeposit
+	}
+	before := c.App.VerifGovKeeper().GetProposals(c.Ctx())
+	content := shieldtypes.NewShieldClaimProposal(poolID, coin(loss), purchaseID, "ev", "desc", c.Accts[buyer].Addr)
+	c.SubmitProposal(buyer, content, D{"kind": "claim", "pool": poolID, "purchase": purchaseID, "loss": loss, "contentProposer": Hex(c.Accts[buyer].Addr)}, coin(need))
+	after := c.App.VerifGovKeeper().GetProposals(c.Ctx())
+	if len(after) == len(before) {
+		return true
+	}
+	pid := after[len(after)-1].ProposalId
+	c.Vote(certifier, pid, sdkgovtypes.OptionYes)
+	if !c.Advance(time.Second) { // the certifier round is decided as soon as the threshold is met
+		return false
+	}
+	opt := sdkgovtypes.OptionYes
+	if rng.Intn(5) == 0 {
+		opt = sdkgovtypes.OptionNo
+	}
+	for v := 0; v < cfg.NAcc; v++ {
+		c.Vote(v, pid, opt)
+	}
+	return c.Advance(sc.Voting + time.Second)
 }
